@@ -775,4 +775,63 @@ theorem runFinds_ok {m : Nat → Option Nat} {c : FindCache} (h : CacheOk m c) (
   | cons x rest ih => obtain ⟨k, s⟩ := x; exact ih (cfind_ok h k s).1
 
 
+
+/-- the constant is intact, and nothing handed out is the constant or a cell not yet allocated -/
+def HeapOk (c0 : Nat) (h : SharedHeap) : Prop :=
+  hget h 0 = some c0 ∧ 1 ≤ h.next ∧ ∀ c ∈ h.returned, 1 ≤ c ∧ c < h.next
+
+theorem hget_cons (h : SharedHeap) (c c' v : Nat) :
+    hget { h with cells := (c', v) :: h.cells } c = if c' = c then some v else hget h c := by
+  unfold hget
+  simp only [List.find?_cons]
+  cases hh : (c' == c)
+  · have : ¬ c' = c := by simpa using hh
+    simp [this]
+  · have : c' = c := by simpa using hh
+    simp [this]
+
+theorem heapStep_ok {c0 : Nat} {h : SharedHeap} (hk : HeapOk c0 h) (op : HeapOp) : HeapOk c0 (heapStep true h op) := by
+  obtain ⟨h0, hn, hr⟩ := hk
+  cases op with
+  | parse =>
+    simp only [heapStep, if_true, h0]
+    refine ⟨?_, by simp, ?_⟩
+    · have := hget_cons h 0 h.next c0
+      simp only [hget] at this ⊢
+      simp only [List.find?_cons]
+      have hne : (h.next == 0) = false := by simp; omega
+      simp only [hne]
+      simpa [hget] using h0
+    · intro c hc
+      simp only [List.mem_append, List.mem_singleton] at hc
+      rcases hc with hc | rfl
+      · have := hr c hc; exact ⟨this.1, by simp; omega⟩
+      · exact ⟨hn, by simp⟩
+  | edit i v =>
+    simp only [heapStep]
+    cases hi : h.returned[i]? with
+    | none => exact ⟨h0, hn, hr⟩
+    | some c =>
+      have hc := hr c (List.mem_of_getElem? hi)
+      refine ⟨?_, hn, hr⟩
+      have := hget_cons h 0 c v
+      rw [this]
+      have : ¬ c = 0 := by omega
+      simp [this, h0]
+
+theorem heapRun_ok {c0 : Nat} {h : SharedHeap} (hk : HeapOk c0 h) (ops : List HeapOp) : HeapOk c0 (heapRun true h ops) := by
+  induction ops generalizing h with
+  | nil => exact hk
+  | cons op ops ih => exact ih (heapStep_ok hk op)
+
+theorem heapInit_ok (c0 : Nat) : HeapOk c0 (heapInit c0) := by
+  refine ⟨by simp [heapInit, hget], by simp [heapInit], ?_⟩
+  intro c hc; simp [heapInit] at hc
+
+theorem nextParse_of_ok {c0 : Nat} {h : SharedHeap} (hk : HeapOk c0 h) : nextParseRenders true h = some c0 := by
+  obtain ⟨h0, hn, hr⟩ := hk
+  simp only [nextParseRenders, heapStep, if_true, h0]
+  simp [hget]
+
+
 end SqlglotModel.Determinism
